@@ -1,7 +1,15 @@
 """C03 - SMILES -> SELFIES -> SMILES round trip preserves the molecule atom for atom (DESIGN 7.3)."""
 ID = 'C03'
 LEVEL = 'other'
-TARGETS = ['selfies/grammar_rules.py::get_selfies_from_index', 'selfies/grammar_rules.py::get_index_from_selfies', 'selfies/decoder.py::_read_index_from_selfies', 'pow16_pos', 'div_div16']
+TARGETS = ['selfies/grammar_rules.py::get_selfies_from_index',
+           'selfies/grammar_rules.py::get_index_from_selfies',
+           'selfies/decoder.py::_read_index_from_selfies',
+           'pow16_pos',
+           'div_div16',
+           'selfies/utils/smiles_utils.py::smiles_to_bond',
+           'selfies/utils/smiles_utils.py::bond_to_smiles',
+           'selfies/encoder.py::_bond_to_selfies',
+           'selfies/encoder.py::_ring_bonds_to_selfies']
 EXPLANATION = ('Mixed. PROVED: the component lemmas the round trip rests on - the index code emitted by the encoder is the exact inverse of the decoder-side conversion (C16 contracts, all n) - and every clause listed in coverage.clauses. BOUNDED (not counted as proved): whole-pipeline equality read(decoder(encoder(s))) == read(s) index by index (element, isotope, charge, H count, bonded pairs, bond orders; aromatic bonds become a consistent single/double assignment) for a corpus of molecules and their alternative spellings; the global induction over DFS spellings is out of reach of the engine (DESIGN 1).')
 
 
